@@ -1,6 +1,9 @@
 package main
 
 import (
+	"time"
+	"net/http/httptest"
+	"net/http"
 	"syscall"
 	"bytes"
 	"context"
@@ -65,6 +68,7 @@ func mirrorExec(c *Ctx, op string) {
 	var sources []api.WarehouseLocation
 	var srcFiles []string
 	var pickToks []string
+	var httpSrv *httptest.Server
 	var missingDirs []string // source locations that do not exist: they must still not exist afterwards
 	firstHolder := ""
 	for i, cd := range conds {
@@ -72,6 +76,29 @@ func mirrorExec(c *Ctx, op string) {
 		dir := filepath.Join(base, fmt.Sprintf("s%d", i))
 		scheme := map[string]string{"ca": "ca+file", "file": "file"}[kind]
 		switch cd {
+		case "httpgood":
+			// a good copy behind HTTP (Content-Length known: the body's last chunk arrives together with io.EOF)
+			if httpSrv == nil {
+				httpSrv = httptest.NewServer(http.HandlerFunc(func(w http.ResponseWriter, r *http.Request) {
+					if strings.HasSuffix(r.URL.Path, id.Hash) || strings.HasSuffix(r.URL.Path, "/ware") {
+						http.ServeContent(w, r, "", time.Time{}, bytes.NewReader(good))
+						return
+					}
+					w.WriteHeader(404)
+				}))
+				defer httpSrv.Close()
+			}
+			if kind == "ca" {
+				sources = append(sources, api.WarehouseLocation("ca+http"+strings.TrimPrefix(httpSrv.URL, "http")+fmt.Sprintf("/s%d", i)))
+				pickToks = append(pickToks, "ca+http:holding")
+			} else {
+				sources = append(sources, api.WarehouseLocation(httpSrv.URL+fmt.Sprintf("/s%d/ware", i)))
+				pickToks = append(pickToks, "http:holding")
+			}
+			if firstHolder == "" {
+				firstHolder = "good"
+			}
+			continue
 		case "missingdir":
 			sources = append(sources, whAddr(kind, filepath.Join(dir, "nope")))
 			pickToks = append(pickToks, scheme+":missingdir")
@@ -244,7 +271,7 @@ func mirrorEngine(c *Ctx) {
 	if c.Tier == "thorough" {
 		n = 200
 	}
-	conds := []string{"missingdir", "lacking", "good", "good", "corrupt", "mislabelled", "dirware"}
+	conds := []string{"missingdir", "lacking", "good", "good", "corrupt", "mislabelled", "dirware", "httpgood"}
 	for k := 0; k < n; k++ {
 		fmtName := []string{"tar", "tar", "zip"}[k%3]
 		fsx := c.GenFileset(GenOpts{MaxEntries: 5, Kinds: "ffdL", MaxContent: 400})
